@@ -77,3 +77,37 @@ end loop
 def noScreenStep {S : Type} (phys : S → (Nat → K) → S) (s : S) (A : Nat → K) : S × (Nat → K) := (phys s A, A)
 
 end Tdgl
+
+/-! ### The loop as it really runs: the physics is stateful
+
+In `TDGLSolver.update` every Polyak iteration re-applies the Euler step to the *already updated* ψ (with the
+`abs_sq_psi` of the start of the step) and re-solves for μ, so the currents are a function of the induced
+potential **and** of the state left by the previous iteration. `P` is that state (`ψ, μ, dt`). -/
+namespace Tdgl
+variable {K : Type}
+
+section loopS
+variable {V P : Type} [Add V] [Sub V] [HSMul K V V] [Sub K] [OfNat K 1] [LT K] [DecidableLT K]
+
+inductive ScreenResultS (K V P : Type) where
+  | converged (p : P) (A : V) (J : V) (iterations : Nat) (lastErr : Option K)
+  | failed (iterations : Nat)
+  | outOfFuel
+
+/-- `phys p A = (p', J)`: one Euler step + Poisson solve with link variables from `A_applied + A`,
+    starting from physics state `p`; returns the new state and the total current. -/
+def screenLoopS (alpha beta tol : K) (maxIt : Nat) (phys : P → V → P × V) (kern : V → V) (errOf : V → V → K) :
+    Nat → Nat → P → PolyakState V → V → Option K → ScreenResultS K V P
+  | 0, _, _, _, _, _ => .outOfFuel
+  | fuel+1, it, p, s, J, err =>
+    if (match err with | none => false | some e => decide (e < tol)) then .converged p s.A J it err
+    else if maxIt < it then .failed it
+    else
+      let r := phys p s.A
+      let new := kern r.2
+      let s' := polyak alpha beta s new
+      let e := errOf (new - s.A) s'.A
+      screenLoopS alpha beta tol maxIt phys kern errOf fuel (it+1) r.1 s' r.2 (some e)
+
+end loopS
+end Tdgl
